@@ -147,6 +147,16 @@ Proof.
     destruct v as [| |n|n| |]; try discriminate; try reflexivity; destruct n; try discriminate; reflexivity.
 Qed.
 
+Lemma forallb_any l : forallb (conforms ShAny) l = true.
+Proof. apply forallb_forall. intros x _. reflexivity. Qed.
+
+Lemma refine_ty_sound t s v : conforms s v = true -> has_ty t v = true -> conforms (refine_ty t s) v = true.
+Proof.
+  intros Hc Hh. destruct s as [| | | | | | |e0|fs rest|s1|ea]; cbn [refine_ty]; try exact Hc.
+  - destruct t; destruct v; try discriminate; try reflexivity. cbn [conforms]. apply forallb_any.
+  - destruct (sure_ty t s1) eqn:Es1; [|exact Hc]. rewrite conforms_ShOpt in Hc. destruct v; try exact Hc. destruct t; discriminate.
+Qed.
+
 Lemma zero_conf t : conforms (zero_sh t) (zero t) = true.
 Proof. destruct t; reflexivity. Qed.
 
@@ -268,7 +278,9 @@ Proof.
     { injection Ha as <-. rewrite (sure_ty_has _ _ _ Es Hc). exact Hc. }
     destruct (never_ty t s0) eqn:En.
     { injection Ha as <-. rewrite (never_ty_has _ _ _ En Hc). apply zero_conf. }
-    destruct t; destruct s0 as [| | | | | | |e0|fs rest|s1|ea]; try (injection Ha as <-; reflexivity);
+    destruct s0 as [| | | | | | |e0|fs rest|s1|ea].
+    { destruct t; injection Ha as <-; destruct v; try reflexivity. cbn [has_ty conforms is_null orb]. apply forallb_any. }
+    all: destruct t; try (injection Ha as <-; reflexivity);
       destruct s1 as [| | | | | | |e1|fs1 rest1|s2|eb]; injection Ha as <-; try reflexivity;
       rewrite conforms_ShOpt in Hc |- *; destruct v; try discriminate; cbn [has_ty zero is_null orb] in *; try reflexivity; exact Hc.
   - destruct (aeval e G) as [s0|] eqn:Ea; [|discriminate]. destruct (IH G r s0 Ea He) as [v [-> Hc]]. cbn [bind].
@@ -369,9 +381,7 @@ Proof.
     destruct (never_ty t sh) eqn:En.
     { rewrite (never_ty_has _ _ _ En Hv). exact (IHb _ _ Hc (env_conf_cons _ _ _ _ _ He (zero_conf t))). }
     apply andb_true_iff in Hc as [H1 H2]. destruct (has_ty t v) eqn:Eh.
-    + apply (IHa _ _ H1). apply env_conf_cons; [exact He|].
-      destruct sh as [| | | | | | |e0|fs rest|s1|ea]; try exact Hv. destruct (sure_ty t s1) eqn:Es1; [|exact Hv].
-      rewrite conforms_ShOpt in Hv. destruct v; try exact Hv. destruct t; discriminate.
+    + apply (IHa _ _ H1). apply env_conf_cons; [exact He|]. exact (refine_ty_sound _ _ _ Hv Eh).
     + exact (IHb _ _ H2 (env_conf_cons _ _ _ _ _ He (zero_conf t))).
   - destruct (aeval e G) as [sh|] eqn:Ea; [|discriminate]. destruct (aeval_sound _ _ _ _ Ea He) as [v [-> Hv]]. cbn [bind].
     destruct sh as [| | | | |  |t| | | |]; try discriminate.
